@@ -365,6 +365,14 @@ func dnsScenarioC08(w *dnsWorld) {
 			s.RunUntil(func() bool { return w.envTasks == 0 }, 5)
 		}
 		if T.Chance(1, 20) {
+			// a reload is only modelled between resolutions: a refresh still in flight on the
+			// old controller (closed right after the restore) is not part of the statement
+			s.Quiesce(func() bool { return true }, 0, 0)
+			w.track.scan()
+			if w.pendingWork() || w.fwdInFlight() > 0 {
+				w.idle(w.pickJump())
+				continue
+			}
 			w.env("reload", func() { w.reloadClone() })
 			s.RunUntil(func() bool { return w.envTasks == 0 }, 5)
 		}
